@@ -92,10 +92,8 @@ type Case struct {
 	NDiff  int      `json:"ndiff"`  // number of 32-bit registers that changed
 	MemAcc int      `json:"memacc"` // accesses to the storage accessor
 	LDSChg bool     `json:"ldschg"` // LDS content changed
-	MemPre  []ByteVal `json:"mempre,omitempty"`  // memory bytes touched by the run: initial content
-	MemPost []ByteVal `json:"mempost,omitempty"` // ... final content
-	LdsPre  []ByteVal `json:"ldspre,omitempty"`  // DS cases: the whole LDS before
-	LdsPost []ByteVal `json:"ldspost,omitempty"` // ... and after
+	MemPost []ByteVal `json:"mempost,omitempty"` // memory bytes that differ from the default content after the run
+	LdsPost []ByteVal `json:"ldspost,omitempty"` // LDS bytes that differ from the default content after the run
 	Coq    string   `json:"coq,omitempty"`
 }
 
@@ -232,8 +230,10 @@ func run(c *Case) {
 	fr := vh.NewRng(c.Fill)
 	fillBytes(wf.SRegFile, fr)
 	fillBytes(wf.VRegFile, fr)
-	lds := make([]byte, 256)
-	fillBytes(lds, fr)
+	lds := make([]byte, 65536) // default content: dfltByte(fill, address), see IsaCheck.dflt
+	for i := range lds {
+		lds[i] = dfltByte(c.Fill, uint64(i))
+	}
 	for _, s := range c.Set {
 		if s.Lane < 0 {
 			binary.LittleEndian.PutUint32(wf.SRegFile[s.Idx*4:], s.Val)
@@ -273,10 +273,9 @@ func run(c *Case) {
 	c.MemAcc = stub.reads + stub.writes
 	c.LDSChg = string(l0) != string(lds)
 	if isMemFmt(c.Fmt) {
-		c.MemPre, c.MemPost = stub.snapshot()
-		if c.Fmt == "DS" {
-			for i := range lds {
-				c.LdsPre = append(c.LdsPre, ByteVal{uint64(i), l0[i]})
+		c.MemPost = stub.snapshot()
+		for i := range lds {
+			if lds[i] != l0[i] {
 				c.LdsPost = append(c.LdsPost, ByteVal{uint64(i), lds[i]})
 			}
 		}
@@ -406,7 +405,7 @@ func bytesCoq(bs []ByteVal) string {
 }
 
 // pstateCoq: VGPRs probed in all 64 lanes travel as columns (register, [64 values]), the rest as triples
-func pstateCoq(s Scalars, regs []RegVal, mem, lds []ByteVal) string {
+func pstateCoq(s Scalars, regs []RegVal, seed uint64, mem, lds []ByteVal) string {
 	var sg, vg, vc []string
 	cnt := map[int]int{}
 	for _, r := range regs {
@@ -439,8 +438,8 @@ func pstateCoq(s Scalars, regs []RegVal, mem, lds []ByteVal) string {
 		}
 		vc = append(vc, fmt.Sprintf("(%d,[%s])", i, strings.Join(vals, ";")))
 	}
-	return fmt.Sprintf("(mkP %d %s %s %d %s [%s] [%s] [%s] [%s] [%s])", s.SCC, z(s.VCC), z(s.EXEC), s.M0, z(s.PC),
-		strings.Join(sg, ";"), strings.Join(vg, ";"), strings.Join(vc, ";"), bytesCoq(mem), bytesCoq(lds))
+	return fmt.Sprintf("(mkP %d %s %s %d %s [%s] [%s] [%s] %d [%s] [%s])", s.SCC, z(s.VCC), z(s.EXEC), s.M0, z(s.PC),
+		strings.Join(sg, ";"), strings.Join(vg, ";"), strings.Join(vc, ";"), seed&0xff, bytesCoq(mem), bytesCoq(lds))
 }
 
 func caseCoq(c *Case) string {
@@ -451,7 +450,7 @@ func caseCoq(c *Case) string {
 	inst := fmt.Sprintf("(mkInst F_%s %d %s %s %s %s %s %d)", c.Fmt, c.Op, zi(c.Src0), zi(c.Src1), zi(c.Src2), zi(c.Dst), zi(c.Simm), c.Lit)
 	crashed := c.Panic != ""
 	eff := c.MemAcc > 0 || c.LDSChg
-	return fmt.Sprintf("mkCase %s %s %s %s %s %s", arch, inst, pstateCoq(c.Pre, c.Probe, c.MemPre, c.LdsPre), vh.CoqBool(crashed), vh.CoqBool(eff), pstateCoq(c.Post, c.After, c.MemPost, c.LdsPost))
+	return fmt.Sprintf("mkCase %s %s %s %s %s %s", arch, inst, pstateCoq(c.Pre, c.Probe, c.Fill, nil, nil), vh.CoqBool(crashed), vh.CoqBool(eff), pstateCoq(c.Post, c.After, c.Fill, c.MemPost, c.LdsPost))
 }
 
 // ---------------------------------------------------------------- encoders
